@@ -42,6 +42,8 @@ Template(kd, f, g) ==
     [] kd = "renmode"  -> << L("oldmode", 0, 0), L("newmode", 0, 0), L("simil", 0, 0), L("renfrom", f, 0), L("rento", g, 0) >>
     [] kd = "bin"      -> << L("index", 0, 0), L("binary", f, f) >>
     [] kd = "binadd"   -> << L("newfile", 0, 0), L("index", 0, 0), L("binary", 0, f) >>
+    \* `git diff --no-index old.png new.png`: two different paths on the diff line, and no line that names either alone
+    [] kd = "binx"     -> << L("index", 0, 0), L("binary", f, g) >>
     [] kd = "cc"       -> << L("index", 0, 0), L("mmm", f, 0), L("ppp", f, 0) >>   \* diff --cc / --combined (merge)
     [] kd = "bare"     -> << >>
     \* submodules: diff.submodule=log prints "Submodule <path> <a>..<b>:" and its "  > subject" lines instead of
@@ -50,9 +52,9 @@ Template(kd, f, g) ==
     [] kd = "subshort" -> << L("index", 0, 0), L("mmm", f, 0), L("ppp", f, 0), L("hh", 0, 0), L("subm", 0, 0), L("subp", 0, 0) >>
 
 HasHunks(kd)  == kd \in {"mod", "add", "del", "renmod", "modemod", "cc"}
-TwoPaths(kd)  == kd \in {"rename", "renmod", "copy", "renmode"}
+TwoPaths(kd)  == kd \in {"rename", "renmod", "copy", "renmode", "binx"}
 AllKinds == {"mod", "add", "addempty", "del", "rename", "renmod", "copy", "modeonly", "modemod", "bin",
-             "binadd", "bare", "cc", "sublog", "subshort", "modebin", "renmode"}
+             "binadd", "bare", "cc", "sublog", "subshort", "modebin", "renmode", "binx"}
 
 BodyClasses == {"minus", "plus", "zero"}
 
